@@ -641,7 +641,7 @@ bool TypeChecker::typesAreCompatible(
                                 treatVoidAsAny,
                                 ignoreQualifier);
                 case TypeKind::Tag:
-                    break;
+                    return treatVoidAsAny;
                 case TypeKind::Void:
                     return true;
                 case TypeKind::Qualified:
